@@ -440,9 +440,11 @@ def conc_replay(ctx, tag="conc", max_paths_quick=700, max_paths_thorough=8000):
                    ("b", conc_consts(2, 1, 1, ["recent"], ["block", "coro"], 2, 2, 2, 1, copybusy=False), CFG),
                    ("c", conc_consts(1, 2, 2, ["behind"], ["block", "poll", "coro"], 4, 3, 2, 1), CFG),
                    ("r", conc_consts(1, 1, 1, ["all", "recent"], ["block", "poll", "coro"], 3, 2, 2, 1), CFG),
-                   ("e", conc_consts(3, 1, 2, ["all"], ["block", "coro"], 1, 1, 3, 0, copybusy=False), CFG),
+                   # three subscriber threads (mixed wake-up list: coroutine, then blocked threads); all join first
+                   ("e", conc_consts(3, 1, 2, ["all"], ["block", "coro"], 1, 1, 3, 0, copybusy=False), CFG2),
                    ("p", conc_consts(2, 1, 2, ["all"], ["block"], 3, 2, 2, 0, copybusy=False, twopub=True), CFG2),
-                   ("q", conc_consts(2, 1, 1, ["all", "recent"], ["block", "poll"], 2, 1, 2, 1, copybusy=False, twopub=True), CFG)]
+                   # two publishing threads, finite window, one subscriber that also polls, kick, leave/rejoin
+                   ("q", conc_consts(1, 1, 1, ["all", "recent"], ["block", "poll"], 3, 1, 2, 1, copybusy=False, twopub=True), CFG)]
     # a thread copies a subscriber in the window between the publisher's critical section that collected its awaiter and
     # the original's get_value (own key: remainder of the copy-of-parked defect)
     configs.append(("w", conc_consts(2, 1, U, ["all"], ["block", "coro"], 1 if ctx.quick else 2, 1, 2, 0, copywoken=True,
